@@ -2,9 +2,13 @@ from ._common import STD_TRUST
 
 PROP = dict(
     level='proof',
-    regen=['crctable'],
+    regen=['crctable', 'go2lean:crc16'],
+    go2lean_diff=['Crc'],
     theorems=['Fit.C18.C18_crc_eq_spec', 'Fit.C18.C18_split_indep', 'Fit.C18.C18_split_many',
-              'Fit.C18.C18_reset', 'Fit.C18.C18_state_is_value', 'Fit.C18.C18_sum_layout'],
+              'Fit.C18.C18_reset', 'Fit.C18.C18_state_is_value', 'Fit.C18.C18_sum_layout',
+              # tie by translation (FitProps/C18Go2Lean.lean): the functions of crc16.go, translated from the current source, equal the model
+              'Fit.C18.C18_go2lean_table', 'Fit.C18.C18_go2lean_compute', 'Fit.C18.C18_go2lean_write', 'Fit.C18.C18_go2lean_sum16',
+              'Fit.C18.C18_go2lean_sum', 'Fit.C18.C18_go2lean_reset', 'Fit.C18.C18_go2lean_crc_of_source'],
     families=[dict(name='crc', spec=True)],
     trusted_base=STD_TRUST + [
         "crc16.go's 16 table literals are extracted by go/ast on every run (Generated/CrcTable.lean); the shape of compute() is tied by the exhaustive family: all 2^24 three-byte strings = every (state, byte) pair of the step function, digest-compared between implementation, model and bitwise spec",
